@@ -264,6 +264,7 @@ class Ctx:
         self.boost = 1          # budget multiplier (search mode)
         self.t0 = time.time()
         self.findings = load_findings(pid)
+        self.dynamic_obligations = []   # per-run generated theorems: {'theorem', 'ok', 'axioms', 'says'}
 
     # budgets
     def scale(self, quick, thorough):
@@ -374,6 +375,8 @@ def main(argv):
         if tier not in ('quick', 'thorough'):
             print('tier must be quick or thorough')
             return 2
+    import logging
+    logging.getLogger().addHandler(logging.NullHandler())   # keep wpull's own warnings off stderr
     t0 = time.time()
     ctx = Ctx(pid, tier, seed)
     try:
@@ -433,6 +436,11 @@ def main(argv):
         print('INFRA: engine crashed')
         return 2
 
+    for d in ctx.dynamic_obligations:
+        aud.append({'theorem': d['theorem'], 'ok': bool(d['ok']), 'axioms': d.get('axioms', []), 'why': d.get('why', '')})
+        obligations = obligations + [{'theorem': d['theorem'], 'strength': d.get('strength', 'partial'), 'says': d.get('says', '')}]
+    broken = [a for a in aud if not a['ok']]
+
     # 3. decide
     rc = 0
     lines = []
@@ -458,6 +466,8 @@ def main(argv):
             path = write_replay(pid, 'proof_broken',
                                 {'property': pid, 'type': 'proof-obligation-broken',
                                  'theorems': broken, 'forbidden': forb})
+            for b in broken[:5]:
+                lines.append('  broken obligation: %s (%s)' % (b['theorem'], str(b.get('why', ''))[:300]))
             lines.append('VIOLATION property=%s replay=%s no-failing-input-found' % (pid, path))
             rc = 1
         elif ctx.disagreements:
